@@ -1,12 +1,15 @@
 package replay
 
 import (
+	"encoding/hex"
 	"fmt"
 	"sort"
 	"strings"
 	"sync"
 	"time"
 
+	"github.com/massnetorg/mass-core/massutil"
+	"github.com/massnetorg/mass-core/wire"
 	"verif/harness/dbwrap"
 )
 
@@ -113,8 +116,48 @@ func ReplayReadIso(u *Universe, h History, dir string, api string, park int64) (
 	if _, err := w.W.UseWallet(wl.ID); err != nil {
 		return Result{OK: false, Err: "harness: UseWallet: " + err.Error()}
 	}
+	// what the building call asks for: all ordinary coins of the last boundary but half a unit
+	buildAmt := Unit / 2
+	if v, ok := bounds[len(bounds)-1].Views[name]; ok {
+		var t int64
+		for _, x := range v.Utxos {
+			if x.Class == "std" || x.Class == "cb" {
+				t += x.Amt * Unit
+			}
+		}
+		if t > 0 {
+			buildAmt = t - Unit/2
+		}
+	}
 	query := func() (string, error) {
 		switch api {
+		case "build":
+			// a transaction-building call that needs nearly every ordinary coin the wallet has at the LAST
+			// boundary, immature ones included (amounts are whole units, so "all but half a unit" is
+			// payable exactly when every one of those coins is free and mature); the answer is the set of
+			// coins it selected, or "insufficient"
+			raw, _, err := w.W.AutoCreateRawTransaction(map[string]massutil.Amount{w.strangerAddr(1): mustAmount(buildAmt)}, 0, mustAmount(0), "", "", nil)
+			if err != nil {
+				if strings.Contains(strings.ToLower(err.Error()), "insufficient") {
+					return "insufficient", nil
+				}
+				return "", err
+			}
+			var mtx wire.MsgTx
+			b, derr := hex.DecodeString(raw)
+			if derr == nil {
+				derr = mtx.SetBytes(b, wire.Packet)
+			}
+			if derr != nil {
+				return "", fmt.Errorf("harness: built transaction does not decode: %v", derr)
+			}
+			w.W.ClearUsedUTXOMark(&mtx)
+			var l []string
+			for _, in := range mtx.TxIn {
+				l = append(l, fmt.Sprintf("%s:%d", w.nameOf(in.PreviousOutPoint.Hash.String()), in.PreviousOutPoint.Index))
+			}
+			sort.Strings(l)
+			return strings.Join(l, " "), nil
 		case "balance":
 			b, err := w.W.WalletBalance(0, true)
 			if err != nil {
@@ -194,6 +237,40 @@ func ReplayReadIso(u *Universe, h History, dir string, api string, park int64) (
 	for _, b := range bounds {
 		v, ok := b.Views[name]
 		if !ok {
+			continue
+		}
+		if api == "build" {
+			// acceptable at this boundary: every selected coin is a free, mature, ordinary coin of it;
+			// or nothing such exists and the call said so
+			free := map[string]bool{}
+			var freeSum int64
+			for _, x := range v.Utxos {
+				if (x.Class == "std" || x.Class == "cb") && uint64(b.Synced)+1-x.H >= uint64(x.Mat) && !x.Sbu {
+					free[fmt.Sprintf("%s:%d", x.Tx, x.Vout)] = true
+					freeSum += x.Amt * Unit
+				}
+			}
+			var fl []string
+			for k := range free {
+				fl = append(fl, k)
+			}
+			sort.Strings(fl)
+			wants = append(wants, fmt.Sprintf("[height %d] free coins {%s} worth %d, asked %d", b.Synced, strings.Join(fl, " "), freeSum, buildAmt))
+			if o.s == "insufficient" {
+				if freeSum < buildAmt {
+					return res
+				}
+				continue
+			}
+			all := o.s != "" && freeSum >= buildAmt
+			for _, c := range strings.Fields(o.s) {
+				if !free[c] {
+					all = false
+				}
+			}
+			if all {
+				return res
+			}
 			continue
 		}
 		want := balKey(v)
